@@ -323,6 +323,51 @@ class Graph(object):
         return [n for n in range(len(self.nodes)) if self.body.blocks[self.bb(n)].term.kind == "return"]
 
 
+def upvar_sources(prog, body):
+    """{captured field name: source path} for a closure / async-block body: the path (from a parameter or an outer
+    capture of the constructing body) of the value each captured variable holds; None when it is not such a path"""
+    cache = getattr(prog, "_upvar_src_cache", None)
+    if cache is None:
+        cache = prog._upvar_src_cache = {}
+    if body.key in cache:
+        return cache[body.key]
+    cache[body.key] = {}
+    parent = prog.bodies.get(body.parent) if body.parent else None
+    out = {}
+    if parent is not None:
+        pan = Analyzer(parent, prog)
+        for blk in parent.blocks:
+            if blk.cleanup:
+                continue
+            for i, st in enumerate(blk.stmts):
+                if st.kind == "assign" and st.rv.k == "agg" and st.rv.j.get("closure") == body.key:
+                    for n, op in zip(st.rv.j.get("fields", []), st.rv.ops):
+                        e = pan.operand_expr(op, (blk.idx, i), 0)
+                        out[n] = _src_path(e)
+    cache[body.key] = out
+    return out
+
+
+def _src_path(e):
+    fs = []
+    for _ in range(40):
+        e = strip(e)
+        if e[0] == "field":
+            b = strip(e[1])
+            if b[0] == "env":
+                nm = e[2][6:] if e[2].startswith("_ref__") else e[2]
+                return "c:" + ".".join([nm] + list(reversed(fs)))
+            fs.append(e[2])
+            e = e[1]
+        elif e[0] == "param":
+            return "p:" + ".".join([str(e[2])] + list(reversed(fs)))
+        elif e[0] == "cell":
+            e = e[3]
+        else:
+            return None
+    return None
+
+
 class Analyzer(object):
     """Per-body analyses: definitions index, expression trees, guard classification."""
 
@@ -368,7 +413,38 @@ class Analyzer(object):
         have = [b.local_name(i) for i in range(1, b.arg_count + 1)]
         if len(want) != len(have):
             return {}
-        return {h: w for h, w in zip(have, want) if h and h != w}
+        out = {h: w for h, w in zip(have, want) if h and h != w}
+        out.update(self._canon_upvars())
+        return out
+
+    def _canon_upvars(self):
+        """current captured-variable name -> name on the pinned tree (spec/upvar_names.json), identified by WHAT is
+        captured (the path from a parameter / outer capture), so renaming a local that a closure or async block captures
+        does not change any verdict"""
+        prog = self.prog
+        body = self.body
+        if prog is None or body.kind in ("Fn", "AssocFn") or not body.parent:
+            return {}
+        table = getattr(prog, "_upvar_spec", None)
+        if table is None:
+            import json as _json
+            import os as _os
+            path = _os.path.join(_os.path.dirname(_os.path.dirname(_os.path.abspath(__file__))), "spec", "upvar_names.json")
+            try:
+                table = _json.load(open(path))["closures"]
+            except Exception:
+                table = {}
+            prog._upvar_spec = table
+        spec = table.get(body.key)
+        if not spec:
+            return {}
+        cur = upvar_sources(prog, body)
+        out = {}
+        for n, src in cur.items():
+            w = spec.get(src) if src else None
+            if w and w != n:
+                out[n] = w
+        return out
 
     def _index(self):
         for b in self.body.blocks:
@@ -472,7 +548,7 @@ class Analyzer(object):
                 if callee.endswith("Future::poll") and e[2] == "Ready":
                     return self._await_of_poll(inner)
                 if callee.endswith("Try::branch") and e[2] == "Continue":
-                    return ("try", inner[3][0])
+                    return self._try_of(inner[3][0])
             if inner[0] == "await" and inner[1][0] == "select" and name == "0":
                 sel = inner[1]
                 m = re.match(r"_(\d+)$", e[2])
@@ -489,6 +565,27 @@ class Analyzer(object):
         if e[0] == "cell":
             return ("cell", e[1], e[2], self._field(e[3], name))
         return ("field", e, name)
+
+    def _try_of(self, x):
+        """value of `x?`: when x is (a merge of) literally constructed results — the return value of a helper merged
+        into this body — it is the payload of the Ok/Some alternatives; error alternatives leave through the `?`"""
+        leaves = x[1] if x[0] == "phi" else (x,)
+        oks, rest = [], []
+        for l in leaves:
+            y = l
+            while y[0] in ("ref", "deref"):
+                y = y[1]
+            if y[0] == "agg" and y[1].endswith(("Result::Ok", "Option::Some")) and len(y[2]) == 1:
+                oks.append(y[2][0][1])
+            elif y[0] == "agg" and y[1].endswith(("Result::Err", "Option::None")):
+                rest.append(y)
+            elif y[0] == "call" and short(y[1]).endswith("FromResidual::from_residual"):
+                rest.append(y)
+            else:
+                return ("try", x)
+        if not oks:
+            return ("try", x)
+        return self._phi(oks)
 
     def _phi(self, es):
         flat = []
